@@ -16,7 +16,7 @@ def main ():
   from pvm.report import Report, unjson
   rep = Report()
   try:
-    env.boot()
+    env.boot(verbose_logs=bool(spec.get("verbose_logs")))
     mod = importlib.import_module("pvm.checks." + cid.lower())
     if "replay" in spec:
       mod.replay(unjson(spec["replay"]), rep)
@@ -27,6 +27,11 @@ def main ():
   except Exception:
     rep.inconclusive_because("harness exception: " +
                              traceback.format_exc()[-1500:])
+  if env.LOG_STATS["on"]:
+    rep.count("shards_run_with_debug_logging_on")
+    rep.count("log_records_formatted", env.LOG_STATS["records"])
+    if env.LOG_STATS["unformattable"]:
+      rep.count("log_records_that_could_not_be_formatted", env.LOG_STATS["unformattable"])
   rep.dump(op)
   # Disable any sys.monitoring tools before interpreter teardown.
   try:
